@@ -22,7 +22,8 @@ CONSTANTS Mode,        \* "single" | "chain" | "export"
           MaxLen,      \* longest string
           ExportLen    \* longest exported string (Mode = "export")
 
-VARIABLE c
+VARIABLE kase    \* (a name no bound identifier of the extended modules uses: TLC decides by NAME
+                 \* whether a definition is constant and can be evaluated once)
 
 Alpha == <<"&", "<", ">", "\"", "'", "a", "#", ";", "l", "t", "g", "3", " ", "\n", "\r",
            "é", "€", "\\", "%", "+", "/", "=">>
@@ -44,11 +45,11 @@ ChainDirs == {D0(n) : n \in {"escapeHtml", "escapeUri", "escapeJsString", "json"
                    Dir("truncate", <<I(4), B(FALSE)>>)}
 
 Init == \/ /\ Mode = "single"
-           /\ c \in {[chain |-> <<d>>, ix |-> <<>>] : d \in Dirs} \cup {[chain |-> <<>>, ix |-> <<>>]}
+           /\ kase \in {[chain |-> <<d>>, ix |-> <<>>] : d \in Dirs} \cup {[chain |-> <<>>, ix |-> <<>>]}
         \/ /\ Mode = "chain"
-           /\ c \in {[chain |-> <<d1, d2>>, ix |-> <<>>] : d1 \in ChainDirs, d2 \in ChainDirs}
+           /\ kase \in {[chain |-> <<d1, d2>>, ix |-> <<>>] : d1 \in ChainDirs, d2 \in ChainDirs}
         \/ /\ Mode = "export"
-           /\ c = [chain |-> <<>>, ix |-> <<>>]
+           /\ kase = [chain |-> <<>>, ix |-> <<>>]
 
 \* the characters that matter to a directive (its own specials, one plain
 \* character, one character of each UTF-8 length); the pseudo-case with the
@@ -64,17 +65,17 @@ AlphaFor(name) ==
     [] OTHER -> Idx({"a", "<", "&", "é"})
 ChainAlpha == Idx({"&", "<", "\"", "'", "a", ";", " ", "\n", "é", "\\", "%", "+"})
 
-NextIdx == IF c.chain = <<>> THEN DOMAIN Alpha
-           ELSE IF Len(c.chain) = 1 THEN AlphaFor(c.chain[1].name)
+NextIdx == IF kase.chain = <<>> THEN DOMAIN Alpha
+           ELSE IF Len(kase.chain) = 1 THEN AlphaFor(kase.chain[1].name)
            ELSE ChainAlpha
 
 Next == /\ Mode # "export"
-        /\ Len(c.ix) < MaxLen
-        /\ \E k \in NextIdx : c' = [c EXCEPT !.ix = Append(c.ix, k)]
+        /\ Len(kase.ix) < MaxLen
+        /\ \E k \in NextIdx : kase' = [kase EXCEPT !.ix = Append(kase.ix, k)]
 
 RECURSIVE StrOf(_, _)
 StrOf(ix, i) == IF i > Len(ix) THEN "" ELSE Alpha[ix[i]] \o StrOf(ix, i + 1)
-CS == StrOf(c.ix, 1)          \* the string of the current state
+CS == StrOf(kase.ix, 1)          \* the string of the current state
 
 (***************************************************************************)
 (* Invariants.                                                             *)
@@ -90,8 +91,8 @@ InputsFor(d, s) ==
 
 \* every single directive: the reference result satisfies the contract
 Contract ==
-  (Mode = "single" /\ c.chain # <<>>) =>
-    LET d == c.chain[1]
+  (Mode = "single" /\ kase.chain # <<>>) =>
+    LET d == kase.chain[1]
         ins == InputsFor(d, CS) IN
     \A i \in DOMAIN ins :
       LET v == ins[i]
@@ -102,14 +103,14 @@ Contract ==
 \* pairs: the second directive keeps its contract on whatever the first produced
 ChainContract ==
   Mode = "chain" =>
-    LET r1 == Apply(c.chain[1], S(CS))
-        out == ToText(Apply(c.chain[2], r1)) IN
-    DirContract(c.chain[2], r1, out) = "t"
+    LET r1 == Apply(kase.chain[1], S(CS))
+        out == ToText(Apply(kase.chain[2], r1)) IN
+    DirContract(kase.chain[2], r1, out) = "t"
 
 \* the two decoders are inverses of the escapers on every string (stated
 \* directly, independent of the directive table)
 Inverses ==
-  (Mode = "single" /\ c.chain = <<>>) =>
+  (Mode = "single" /\ kase.chain = <<>>) =>
     LET s == CS IN
     /\ UnescapeHtml(EscapeHtml(s)) = s
     /\ NoRawSpecial(EscapeHtml(s))
@@ -120,7 +121,7 @@ Inverses ==
     /\ JsDenote(JsStringEscape(s)) = s
     /\ JsSafe(JsStringEscape(s))
 
-TypeOK == c.chain \in Seq(Dirs \cup ChainDirs) /\ \A i \in DOMAIN c.chain : InRange(c.chain[i])
+TypeOK == kase.chain \in Seq(Dirs \cup ChainDirs) /\ \A i \in DOMAIN kase.chain : InRange(kase.chain[i])
 
 (***************************************************************************)
 (* Export of M2 cases.                                                     *)
